@@ -58,6 +58,7 @@ pub fn classify(case: &Case, prog: &Prog, cx: &mut Cx) {
     cx.class_if(st.handoffs > 0, "own-frame-handoff");
     cx.class_if(st.handoff_enabled_with_descendants, "own-frame-handoff-enabled-with-descendants");
     cx.class_if(st.handoff_disabled_with_descendants, "own-frame-handoff-disabled-with-descendants");
+    cx.class_if(st.worker_root_span_after_carried_frame, "worker-thread-root-span-after-carried-frame");
     cx.class_if(string_ids, "string-ids");
     cx.class_if(matches!(case.incoming, Some(Incoming { form: IdForm::Int, .. })), "integer-ids");
     cx.class_if(matches!(case.incoming, Some(Incoming { form: IdForm::Typed, .. })), "typed-ids");
@@ -230,6 +231,19 @@ pub fn judge(case: &Case, prog: &Prog, recs: &[Rec], obs: &[Obs], cx: &mut Cx) -
     // -- SpanCtxt::current at every check point
     let mut by_id: BTreeMap<usize, Vec<&Obs>> = BTreeMap::new();
     for o in obs {
+        if o.id == interp::POLL_THREAD_END {
+            // a fresh thread that ran one poll of a frame-wrapped future: the frame was left again
+            vassert!(
+                cx,
+                (o.trace, o.parent, o.span) == (None, None, None),
+                "ambient-ids-left-on-poll-thread",
+                "after a poll that ran on a fresh thread, SpanCtxt::current there = trace {:x?} parent {:x?} span {:x?}",
+                o.trace,
+                o.parent,
+                o.span
+            );
+            continue;
+        }
         by_id.entry(o.id).or_default().push(o);
     }
     for (c, scope) in prog.checks.iter().enumerate() {
